@@ -81,6 +81,8 @@ PREFIXES: List[Tuple[str, int, bytes, int]] = [
     ("p2esk", 88, bytes([9, 48, 57, 115, 171]), 56),
     ("sppk", 55, bytes([3, 254, 226, 86]), 33),
     ("p2pk", 55, bytes([3, 178, 139, 127]), 33),
+    ("SSp", 53, bytes([38, 248, 136]), 32),  # secp256k1 scalar (32 bytes): Tezos documents SSp(53)
+    ("GSp", 54, bytes([5, 92, 0]), 33),  # secp256k1 element (33 bytes): Tezos documents GSp(54)
     ("edsk", 98, bytes([43, 246, 78, 7]), 64),
     ("edsig", 99, bytes([9, 245, 205, 134, 18]), 64),
     ("spsig", 99, bytes([13, 115, 101, 19, 63]), 64),
